@@ -207,6 +207,8 @@ def run_stage_histories(chk, prop, tier):
         chk.run_stage('histories L<=7 over {push,pop,assert x3,check}, 3-assertion micro-pools, default options', tasks, hist_task)
         tasks = [(prop, f, 8, (), s, 8, 2) for f in fams for s in range(8)]
         chk.run_stage('histories L<=8 over {push,pop,assert x2,check}, 2-assertion micro-pools, default options', tasks, hist_task)
+        tasks = [(prop, f, 8, ('proofs',), s, 8, 2) for f in fams for s in range(8)]
+        chk.run_stage('histories L<=8, 2-assertion micro-pools, per-partition preprocessing (:produce-proofs)', tasks, hist_task)
     if tier == 'thorough':
         if prop != 'C03':
             tasks = [(prop, f, 9, (), s, 32, 2) for f in fams for s in range(32)]
